@@ -218,6 +218,11 @@ pub struct LoopCase {
     /// benchmarked call / destructor (no effect on real threads).
     #[serde(default)]
     pub yields: u8,
+    /// Install the constant counters *before* the input counters, so that an
+    /// input counter replaces a constant counter of its kind (as when the
+    /// constant comes from an attribute, the builder or the command line).
+    #[serde(default)]
+    pub const_first: bool,
 }
 
 impl LoopCase {
@@ -243,6 +248,7 @@ impl LoopCase {
             allocs: AllocScripts::default(),
             panic: None,
             yields: 0,
+            const_first: false,
         }
     }
 
@@ -712,10 +718,33 @@ fn benched_body<O: Shape<1>>(input_id: u64, consume_input: impl FnOnce()) -> O {
     out
 }
 
+macro_rules! apply_const_counters {
+    ($b:expr, $c:expr) => {{
+        let mut b = $b;
+        let c: &LoopCase = $c;
+        if let Some(v) = c.const_counters[0] {
+            b = b.counter(BytesCount::new(v));
+        }
+        if let Some(v) = c.const_counters[1] {
+            b = b.counter(CharsCount::new(v));
+        }
+        if let Some(v) = c.const_counters[2] {
+            b = b.counter(CyclesCount::new(v));
+        }
+        if let Some(v) = c.const_counters[3] {
+            b = b.counter(ItemsCount::new(v));
+        }
+        b
+    }};
+}
+
 macro_rules! apply_counters {
     ($b:expr, $I:ty, $c:expr) => {{
         let mut b = $b;
         let c: &LoopCase = $c;
+        if c.const_first {
+            b = apply_const_counters!(b, c);
+        }
         if c.input_counters[0] {
             b = b.input_counter(|i: &$I| BytesCount::new(count_input(0, i)));
         }
@@ -728,17 +757,8 @@ macro_rules! apply_counters {
         if c.input_counters[3] {
             b = b.input_counter(|i: &$I| ItemsCount::new(count_input(3, i)));
         }
-        if let Some(v) = c.const_counters[0] {
-            b = b.counter(BytesCount::new(v));
-        }
-        if let Some(v) = c.const_counters[1] {
-            b = b.counter(CharsCount::new(v));
-        }
-        if let Some(v) = c.const_counters[2] {
-            b = b.counter(CyclesCount::new(v));
-        }
-        if let Some(v) = c.const_counters[3] {
-            b = b.counter(ItemsCount::new(v));
+        if !c.const_first {
+            b = apply_const_counters!(b, c);
         }
         b
     }};
